@@ -8,10 +8,11 @@ import sys
 import pipeline as pl
 import tlc
 import checks_codec as cc
+import checks_extend
 
 
 def c01(tier, seed):
-    return cc.codec_check('C01', tier, seed, ['ber', 'der', 'per', 'uper'], ['RT'], ['enc', 'dec', 're'])
+    return cc.codec_check('C01', tier, seed, ['ber', 'der', 'per', 'uper', 'oer'], ['RT'], ['enc', 'dec', 're'])
 
 
 def c03(tier, seed):
@@ -19,7 +20,7 @@ def c03(tier, seed):
 
 
 def c16(tier, seed):
-    return cc.codec_check('C16', tier, seed, ['ber', 'der', 'per', 'uper'], ['PREFIX'], ['enc', 'pre'], numerics='0')
+    return cc.codec_check('C16', tier, seed, ['ber', 'der', 'per', 'uper', 'oer'], ['PREFIX'], ['enc', 'pre'], numerics='0')
 
 
 def c05(tier, seed):
@@ -30,7 +31,7 @@ def c06(tier, seed):
     return cc.codec_check('C06', tier, seed, ['oer'], ['OER'], ['enc', 'dec'], numerics='0')
 
 
-CHECKS = {'C06': c06, 'C05': c05, 'C01': c01, 'C03': c03, 'C16': c16}
+CHECKS = {'C07': checks_extend.c07, 'C06': c06, 'C05': c05, 'C01': c01, 'C03': c03, 'C16': c16}
 
 
 def setup():
